@@ -34,6 +34,9 @@ def truth(layout):
         v = v - (m // 3)
     if dt.kind == 'f':
         v = v * 0.5
+    if layout.get('big') and dt.kind == 'i':
+        # values close to the limits of the sample type (a product with a unit factor must not wrap)
+        v = v * (np.iinfo(dt).max // (int(np.abs(v).max()) + 1))
     return v.astype(dt).reshape(n, nc)
 
 
